@@ -6,7 +6,7 @@ import os
 import random
 import time
 
-from . import common, gen, queryfam, c10, worldfam
+from . import common, gen, queryfam, c10, worldfam, c18, c09
 
 TRUSTED_BASE = [
     "Lean 4.33.0 kernel (axioms limited to propext, Classical.choice, Quot.sound; audited per theorem on every run)",
@@ -99,6 +99,14 @@ class Outcome:
             q = f.get("quirk")
             if v.known_hits.get(q):
                 lines.append("KNOWN-FINDING: property=%s %s" % (prop, f.get("what", q)))
+        exp_path = os.path.join(common.LEAN, "Lmd", "Audit", "expected.json")
+        if os.path.exists(exp_path) and not self.spec.get("theorems_expected"):
+            try:
+                self.spec = dict(self.spec, theorems_expected=json.load(open(exp_path)).get(prop, []))
+            except ValueError:
+                self.proof_problems.append("Lmd/Audit/expected.json is not valid JSON")
+        if not self.spec.get("theorems_expected") and not self.theorems:
+            self.proof_problems.append("no property theorem is registered for %s" % prop)
         obligations = max(1, len(self.spec.get("theorems_expected", [])) or len(self.theorems))
         discharged = 0
         if self.lean_ok:
@@ -351,6 +359,23 @@ REGISTRY = {
                 "and after recovery with a fresh synchronisation of the backend's final object set",
         "correspondence": "Lmd.updateFullTable (CheckBackendRestarted, row count) / initAllTables / tick vs the Go functions",
         "assumptions": ["virtual clock", "MaxParallelPeerConnections 1 (serial rebuild, so that the failing fetch is determined)", "Icinga2 count-probe reload is not modelled"],
+    },
+    "C18": {
+        "lean_modules": ["C18"],
+        "run": c18.run,
+        "rule": "exhaustive: every cluster shape with 1-4 nodes, every non-empty subset of online nodes, every own index among the online nodes, 0-8 backends (thorough: 0-12); Nodes.redistribute is run in-package and compared with Lmd.redistribute, "
+                "and the partition / offline / evenness statements are evaluated on the implementation's assignment; non-trivial = at least two backends and two online nodes",
+        "correspondence": "Lmd.redistribute / quotas / handOut vs Nodes.redistribute",
+        "assumptions": ["node discovery (pings over HTTP) and the distributed query path are not exercised by this check (see DESIGN.md)"],
+    },
+    "C09": {
+        "lean_modules": ["C09"],
+        "run": c09.run,
+        "rule": "a worker process (crash isolated, time limited) is fed (i) every table x every column x 16-19 request constructs (Columns, Filter with each value class, Negate, Sort, Limit, Stats aggregates and counters, group-by, ColumnHeaders, custom variable forms) "
+                "on a three-backend dataset with host comments/downtimes and flavours without optional columns, (ii) ~90 hand-written malformed requests in both parse modes and 300 (thorough 3000) byte-mutated generated requests, (iii) WaitTrigger/WaitObject/WaitCondition forms, "
+                "(iv) a real Peer against a scripted backend that fails in 7 modes at each of the first queries of the initial synchronisation and of an update run; verdict: the worker is alive, answered in time, control queries are still answered correctly",
+        "correspondence": "exit status / liveness of the worker; control queries vs the model",
+        "assumptions": ["memory-safety faults, deadlocks and unbounded waits can only be exhibited, not excluded, by this check (partial: see DESIGN.md)"],
     },
     "C04": {
         "lean_modules": ["C04"],
